@@ -1,7 +1,9 @@
 (* C03  Typed opcodes only ever receive operands of the kind they require. *)
 From Coq Require Import List NArith Bool.
 From PF Require Import Config Sim Ref Lex Envelope Oracles.
-From PF.proofs Require Import Refine Run PropsR LexRT PropsB Examples.
+From PF Require Import Entropy Gen.
+From PF Require Import SrcStdlibP.
+From PF.proofs Require Import FinR Refine Run PropsR LexRT PropsB Examples.
 
 (* ref_run_req checks req_ok (Ref.v: the requirement list of the property) before every step
    of the kind-tracking reference machine *)
@@ -25,6 +27,29 @@ Theorem C03_bytes : forall c framed steps,
   oracle_C03 (serialize (run_tokens c framed steps)) = true.
 Proof. exact C03_B. Qed.
 Print Assumptions C03_bytes.
+
+(* END TO END, on the bit-exact model of the generator (level F, Gen.generate_internal - the model
+   suite S2 compares byte for byte with the implementation): whatever entropy source, protocol,
+   ranges, flags and mutators, the bytes it returns satisfy the byte-level oracle.  Through
+   FinR.F_in_R (every level-F run is a level-R run whose tokens serialise to the returned bytes).
+   names_ok / fmt_ok: the GLOBAL name table and the float formatter produce newline-free,
+   well-formed text (checked on the real table / formatter by suite S2 and SrcConsts);
+   cfg_small: the opcode range bounds are below 2^32-2; out_fits: the output is shorter than 2^64 *)
+Theorem C03_generated : forall e c src r,
+  names_ok e -> fmt_ok e -> cfg_small c -> safeb c = true ->
+  generate_internal e id_order c src = Ok r -> out_fits r ->
+  oracle_C03 (g_out r) = true.
+Proof. intros e c src r Hn Hf Hc Hs Hg Hfit. exact (gen_C03 e c src r Hn Hf Hc Hg Hfit Hs). Qed.
+Print Assumptions C03_generated.
+
+(* ... and with the name table of the CURRENT source (gen/SrcStdlib.v is regenerated from the file
+   emission.rs embeds; SrcStdlibP.src_names_ok decides names_ok over all of its entries) *)
+Theorem C03_generated_src : forall fmt c src r,
+  fmt_ok (src_env fmt) -> cfg_small c -> safeb c = true ->
+  generate_internal (src_env fmt) id_order c src = Ok r -> out_fits r ->
+  oracle_C03 (g_out r) = true.
+Proof. intros fmt c src r Hf Hc Hs Hg Hfit. exact (C03_generated (src_env fmt) c src r (src_names_ok fmt) Hf Hc Hs Hg Hfit). Qed.
+Print Assumptions C03_generated_src.
 
 Example C03_nonvacuous : safeb (ex_cfg V4 7) = true /\ run_R (ex_cfg V4 7) true ex_steps2.
 Proof. exact (conj (proj2 ex_safe) ex_run2). Qed.
